@@ -695,15 +695,21 @@ def r01_10(ctx, p):
             env = {"state": s, "__cur__": cur}
             for c in curs:
                 env[c] = cur
-            nodes = explore(g, env, [_cas.model_updatable])
+            nodes, edges = explore(g, env, [_cas.model_updatable], return_edges=True)
             for key in ("datetime_start", "datetime_complete"):
-                hit = any(n.kind == "stmt" and isinstance(n.ast, ast.Assign) and any(
+                stamps = [n for n in nodes if n.kind == "stmt" and isinstance(n.ast, ast.Assign) and any(
                     (isinstance(t, ast.Attribute) and t.attr == key) or (isinstance(t, ast.Subscript) and isinstance(t.slice, ast.Constant) and t.slice.value == key)
-                    for t in n.ast.targets) for n in nodes)
+                    for t in n.ast.targets)]
+                hit = bool(stamps)
                 want = (s == "RUNNING") if key == "datetime_start" else (s in FINISHED)
                 row[(s, key)] = hit
                 if hit != want:
                     bad.append((s, key, hit))
+                elif want:
+                    # ... and on *every* path of a successful transition, whatever else is stored in the trial
+                    ok_edge = lambda a, k, b, edges=edges: (a, k, b) in edges and k not in ("e", "reraise")  # noqa: E731
+                    if g.exit in g.reachable([g.entry], avoid_nodes=stamps, edge_ok=ok_edge):
+                        bad.append((s, key, "only on some paths"))
         rows[f.short] = {f"{s}:{k}": v for (s, k), v in row.items()}
         ctx.check(not bad, "R01.10", f.short, "timestamps-by-state",
                   message=f"{f.name}: timestamp assignment disagrees with the contract for {bad} (state, field, assigned?)",
